@@ -13,6 +13,7 @@ THEOREMS = CT.THEOREMS_C12 + [
 from ..comp import linked as _LK
 THEOREMS = THEOREMS + [t for t in _LK.THEOREMS_LINKED if t[1].split('.')[-1] in ['linked_unit_change']]
 PARTIAL = ['unit_change is proved builder by builder: contract / transport / multi-commodity (rates not given as price keys), Storage (all options), CHP / Plant incl. ramp profiles, min-load costs and costs_only (rates not given as price keys; the constructor guard on declared histories must be stable under the change: it is evaluated on raw values, known finding F-06d); for price-key rates and for LinkedAsset the statement rests on the metamorphic oracles', 'the unit_change theorems are statements over exact rationals; that the floating-point arithmetic of the code (np.cumsum of step lengths against max_store_duration, ceil of duration / step) does not make the result depend on the unit is NOT proved: it rests on the stream non-dyadic unit change (durations in whole grid steps; findings F-12c, F-12d, F-12e were of this kind)']
+from ..comp import elapsed as EL_
 COMPONENTS = ['contract/transport builders under unit pairs (dt scaling)', 'independent reference LP (harness/comp/textbook.py) on zone-aware daily grids across daylight-saving switches: costs and limits billed by elapsed time']
 RULE = ('metamorphic: random small portfolios of contracts and transports re-expressed for another main time unit among h, d, min, s (rates scaled) and re-optimised on the real code: value and dispatched volumes equal; '
         'non-dyadic unit change: unit-free situations (volumes per grid step, durations in WHOLE grid steps) expressed for two main time units in at least one of which the step is no binary fraction '
@@ -21,9 +22,22 @@ RULE = ('metamorphic: random small portfolios of contracts and transports re-exp
         'duration in focus binds (recorded per case: value changes when the duration is one step shorter / longer), both problems solved on the real code: same status, optimal value equal (1e-6 relative), and the optimal dispatch of '
         'either unit is an optimal dispatch in the other (feasible and equally valuable there); first cases: buy in one hour, sell D hours later with a maximal holding time of D hours, D drawn from 1..23, units h / d (fixed finding F-12c); '
         'real CHP / Plant / min-load problems of a case and of the case in another unit are equal; '
-        'totals on DST / calendar-month grids equal rate x elapsed time; builder correspondence cases; non-trivial = solved pair with non-zero value; distinct by case hash')
-ASSUMPTIONS = ['values equal up to 1e-7 relative (1e-6 in the non-dyadic stream, where the rescaled numbers are not representable exactly)', 're-expressed for another unit = every rate and duration is the nearest float of the exact quotient']
-EXPLANATION = 'theorems about the builder models (bounds = rate * dt, invariance under dt scaling: exact rationals); metamorphic oracles on the real code, among them the non-dyadic unit change stream, which exposes the floating-point arithmetic of the code (cumulated step lengths, duration / step quotients) to step lengths, rates and durations that are no binary fractions'
+        'totals on DST / calendar-month grids equal rate x elapsed time; '
+        'elapsed-time totals (harness/comp/elapsed.py; the second sentence of the property on the real code, expected totals computed from the zone-aware instants with pandas only): quantities that ACCUMULATE '
+        'over time - natural inflow of a reservoir (released in total = start - end level + inflow rate x elapsed time of its window; level start + inflow x elapsed-so-far - released inside [0, size] after every step), '
+        'holding costs (buy in step i / sell in step j, one or two cycles, eff_in: cost_store x volume x elapsed time between the steps; optimum by enumeration of the vertex levels), fixed costs of a ScaledAsset over '
+        'SimpleContract / Contract / Transport (fix_costs x scale x elapsed time of its window, scale pinned or free; volume = rate x scale x elapsed time), running costs of a Plant that pays in a block of steps '
+        '(running_costs x elapsed time of the on-steps; volume at full load), contracts / transports at their limit (rate x elapsed time) - for assets without window, with a window that STARTS AFTER the grid start '
+        '(and / or ends before its end), under split optimisation (interval sizes d / 12h on fine, 2d..4d on daily, MS / 2MS on monthly grids; the later intervals carry the cycles), with a coarser own frequency d '
+        'on h / 30min / 15min grids (reservoir, scaled and plain contracts / transports), and combinations late + split / late + coarse; grids from a local midnight 0..3 days before a daylight-saving switch of '
+        '2020..2023 in CET, Europe/Berlin, Europe/London, US/Eastern, Australia/Sydney (hourly / 30-min / 15-min: days of 23 / 25 h; daily: steps of 23 / 24 / 25 h), calendar months, and grids without zone; every case '
+        'in two main time units among h, d, min (fine), h, d, W (daily, monthly), every rate = rate per hour x hours of the unit: the totals hold in both units and the optimal value is the same '
+        '(oracles totals_follow_elapsed_time, unit_change; solver SCIP); not drawn: holding costs with a coarse own frequency (known finding F-13o of C13), plants with an own frequency (refused by a documented '
+        'ValueError), wacc, start level != end level under split optimisation (F-14g of C14), windows that cut a coarse step (F-19b of C19), steps whose ends are the repeated hour of a switch back as contract windows; '
+        'builder correspondence cases; non-trivial = solved pair with non-zero value; distinct by case hash')
+ASSUMPTIONS = ['values equal up to 1e-7 relative (1e-6 in the non-dyadic stream, where the rescaled numbers are not representable exactly)', 're-expressed for another unit = every rate and duration is the nearest float of the exact quotient',
+               'elapsed-time totals: totals and values compared with 1e-6 relative (scale: the total, at least 1); elapsed time = difference of the zone-aware instants (pandas), windows clipped to the horizon; holding costs follow the convention that a volume taken in during step i and given out during step j is billed from the begin of step i to the begin of step j']
+EXPLANATION = 'elapsed-time totals: accumulating rates (inflow, holding costs, fixed costs of scaled assets, running costs, volume limits) against rate x elapsed time from the instants, for late windows, split optimisation and coarse own frequencies on grids with unequal steps / days, in two main time units each; theorems about the builder models (bounds = rate * dt, invariance under dt scaling: exact rationals); metamorphic oracles on the real code, among them the non-dyadic unit change stream, which exposes the floating-point arithmetic of the code (cumulated step lengths, duration / step quotients) to step lengths, rates and durations that are no binary fractions'
 
 
 def scenarios(seed, tier):
@@ -73,6 +87,10 @@ def scenarios(seed, tier):
             yield 'dst%d' % i, {'stream': 'textbook', 'case': s}
     for x in _split_cases(seed, 25 if tier == 'quick' else 250):
         yield x
+    # accumulating rates (inflow, holding costs, fixed costs of scaled assets, running costs, limits) = rate x ELAPSED time from the
+    # instants: late windows, split optimisation, coarse own frequency, on grids with unequal steps / days, two main time units each
+    for tag, c in EL_.cases(seed, 180 if tier == 'quick' else 1440):
+        yield tag, {'stream': 'elapsed', 'case': c}
     # CHP / Plant / min-load CHP, with and without ramp profiles: the REAL problems of a case and of the case re-expressed in another
     # main time unit are equal (theorem unit_change_chp*; unit pairs h<->min, h<->d, min<->s)
     for i in range(n // 5):
@@ -556,6 +574,8 @@ def run_case(c, drv):
         return r
     if c['stream'] == 'nondyadic':
         return run_nondyadic(c['case'])
+    if c['stream'] == 'elapsed':
+        return EL_.run_case(c['case'])
     if c['stream'] == 'chp-unit':
         v, obs = CH_.oracle_unit_change(c['case'])
         return {'evaluated': 2, 'nontrivial': bool(obs.get('compared', True)), 'features': ['stream:chp-unit-change'] + list(obs.get('features', [])), 'disagreements': [],
